@@ -39,7 +39,8 @@ Inductive case :=
 | CMerge (i1 i2 s1 s2 merged : list kv)
 | CEnc (input set : list kv) (emits : list bytes) (encoded : bytes)
 | CIter (input : list kv) (f : option fspec) (contents : list kv) (ops : list iop) (obs : list iobs)
-| CMIter (i1 i2 s1 s2 merged : list kv) (ops : list iop) (obs : list iobs).
+| CMIter (i1 i2 s1 s2 merged : list kv) (ops : list iop) (obs : list iobs)
+| CEncPair (i1 i2 s1 s2 : list kv) (em1 em2 : list bytes) (e1 e2 : bytes).
 
 Definition flag (b : bool) (code : N) : list N := if b then [] else [code].
 
@@ -93,6 +94,20 @@ Definition iobs_eqb (a b : iobs) : bool :=
   | _, _ => false
   end.
 
+(** "Different sets have different encodings" fails for the default encoder.  Known finding F-C05-2
+    (code 3): the two sets print alike (type confusion: Int64(1) / Float64(1) / String("1") ...).
+    Known finding F-C05-2b (code 4): a string slice with an element outside [json_plain] (an '=' or a
+    character JSON escapes with a backslash) is involved, and the printed mappings differ. *)
+Definition has_unplain_strs (l : list kv) : bool :=
+  existsb (fun x => match snd x with VStrs e => negb (forallb (forallb json_plain) e) | _ => false end) l.
+
+Definition enc_distinct_verdict (s1 s2 : list kv) (em1 em2 : list bytes) (e1 e2 : bytes) : list N :=
+  if kvs_eqb s1 s2 || negb (bytes_eqb e1 e2) then []
+  else match printed_f (emit_of s1 em1) s1, printed_f (emit_of s2 em2) s2 with
+       | Some l1, Some l2 => if list_eqb strpair_eqb l1 l2 then [V_KNOWN 3] else [V_SPECFAIL]
+       | _, _ => if has_unplain_strs s1 || has_unplain_strs s2 then [V_KNOWN 4] else [V_SPECFAIL]
+       end.
+
 Definition is_nil {A} (l : list A) : bool := match l with [] => true | _ => false end.
 
 Definition check_case (c : case) : list N :=
@@ -139,7 +154,7 @@ Definition check_case (c : case) : list N :=
             forallb (fun p => match emit_simple (snd (fst p)) with
                               | Some e => bytes_eqb e (snd p)
                               | None => true end) (combine s emits)) V_MISMATCH ++
-      flag (encoding_ok set encoded) V_SPECFAIL
+      flag (encoding_ok_f (emit_of set emits) set encoded) V_SPECFAIL
   | CIter input f contents ops obs =>
       let s := match f with
                | None => new_set input
@@ -152,6 +167,12 @@ Definition check_case (c : case) : list N :=
       flag (kvs_eqb s1 a && kvs_eqb s2 b && kvs_eqb merged (merge_iter a b) &&
             list_eqb iobs_eqb obs (miter_run (miter_new a b) ops)) V_MISMATCH ++
       flag (merge_ok s1 s2 merged && iter_ok merged 0 true ops obs) V_SPECFAIL
+  | CEncPair i1 i2 s1 s2 em1 em2 e1 e2 =>
+      let a := new_set i1 in let b := new_set i2 in
+      flag (kvs_eqb s1 a && kvs_eqb s2 b && bytes_eqb e1 (encode (emit_of a em1) a) &&
+            bytes_eqb e2 (encode (emit_of b em2) b)) V_MISMATCH ++
+      flag (encoding_ok_f (emit_of s1 em1) s1 e1 && encoding_ok_f (emit_of s2 em2) s2 e2) V_SPECFAIL ++
+      enc_distinct_verdict s1 s2 em1 em2 e1 e2
   end.
 
 Definition run (cs : list case) : list (N * N) := index_from 0 check_case cs.
